@@ -164,3 +164,47 @@ def guard_texts(node, stop=None):
             t = n
         res.append(norm(t))
     return res
+
+
+def atoms(node, stop=None):
+    """Path condition of node as a list of atomic conditions (NormText), conjunctions split, in negation normal form."""
+    from . import canon
+    from .pysrc import norm
+
+    out = []
+
+    def add(e, origin):
+        if isinstance(e, ast.BoolOp) and isinstance(e.op, ast.And):
+            for v in e.values:
+                add(v, origin)
+        else:
+            if not hasattr(e, "_parent"):
+                try:
+                    e._canon = getattr(origin, "_canon", False)
+                    e._parent = getattr(origin, "_parent", None)
+                except AttributeError:
+                    pass
+            out.append(norm(e))
+
+    for t, pol in guards(node, stop):
+        add(t if pol else canon.neg(t), t)
+    return out
+
+
+def has_atoms(node, stop, patterns, exact=False, about=None):
+    """Do the given patterns all occur among the atomic path conditions of node?  With exact, nothing else may occur;
+    with about=NAME, no other condition that mentions NAME may occur."""
+    at = atoms(node, stop)
+    used = set()
+    for p in patterns:
+        hit = next((i for i, a in enumerate(at) if i not in used and a == p), None)
+        if hit is None:
+            return False
+        used.add(hit)
+    if exact:
+        return len(used) == len(at)
+    if about:
+        for i, a in enumerate(at):
+            if i not in used and a.node is not None and any(isinstance(x, ast.Name) and x.id == about for x in ast.walk(a.node)):
+                return False
+    return True
